@@ -688,6 +688,11 @@ func Templates(fs string, core, removeAll bool) []Tmpl {
 		one(fsx.Call{Op: "Link", A: "/d/e/z", B: "/f/l"}),
 		one(fsx.Call{Op: "Rename", A: "/f/g", B: "/d/e/y"}),
 		one(fsx.Call{Op: "Link", A: "/d/e/z", B: "/d/y"}),
+		// a name removed and created again by one thread: a call of the other thread
+		// that looked the name up before and re-checks it afterwards must notice
+		// that the entry is another node now, not only that there is an entry
+		Tmpl{{Op: "Remove", A: "/d/x"}, {Op: "OpenFile", A: "/d/x", Flag: ex, Perm: 0o644}},
+		Tmpl{{Op: "Remove", A: "/d/e/z"}, {Op: "Remove", A: "/d/e"}, {Op: "Mkdir", A: "/d/e", Perm: 0o755}},
 		one(fsx.Call{Op: "Chmod", A: "/d/x", Perm: 0o600}),
 		one(fsx.Call{Op: "Chmod", A: "/d/e", Perm: 0o700}),
 		one(fsx.Call{Op: "Stat", A: "/d/x"}),
